@@ -28,18 +28,25 @@ pub const ALPHABET: &[&str] = &[
 /// SplSession alphabet that is count-bound to TLC): literals outside the core of SPL
 pub const EXTRA_TOKENS: &[&str] = &["'\u{142}'", "'\u{20AC}'", "'\u{1F600}'", "99999999999", "0xFFFFFFFFF"];
 
-fn render_tokens(spells: &[String]) -> (String, Vec<usize>) {
-    // canonical layout: one blank between tokens; returns text and the start byte of each token
+fn render_tokens(spells: &[String], doc_before: &[usize]) -> (String, Vec<usize>, Vec<usize>) {
+    // canonical layout: one blank between tokens; a doc comment line in front of the tokens listed in
+    // `doc_before` (the first tokens of the global declarations); returns text, the start byte of each
+    // token and the start byte of what belongs to it (its doc comment, if any)
     let mut text = String::new();
     let mut starts = Vec::new();
+    let mut owned = Vec::new();
     for (i, s) in spells.iter().enumerate() {
         if i > 0 {
             text.push(' ');
         }
+        owned.push(text.len());
+        if let Some(k) = doc_before.iter().position(|x| *x == i) {
+            text.push_str(&format!("// doc {k}\n"));
+        }
         starts.push(text.len());
         text.push_str(s);
     }
-    (text, starts)
+    (text, starts, owned)
 }
 
 /// split a projected node list into top-level declarations: (start index in list, end index, node)
@@ -69,19 +76,31 @@ pub fn damage_case(case: &Value, stride: usize) -> Outcome {
         return o;
     }
     o.nontrivial = true;
+    // twice: tokens only, and with a doc comment line in front of every global declaration (the comment
+    // belongs to the declaration behind it: a damaged neighbour must neither swallow it nor carry a
+    // diagnostic on it)
+    for doc in [false, true] {
+        damage_variant(&p, &tops, stride, doc, &mut o);
+    }
+    o
+}
+
+fn damage_variant(p: &Prog, tops: &[&Node], stride: usize, doc: bool, o: &mut Outcome) {
+    let site_of = |kind: &str| if doc { format!("{kind}+doc") } else { kind.to_string() };
+    let doc0: Vec<usize> = if doc { tops.iter().map(|n| n.first).collect() } else { Vec::new() };
     let spells: Vec<String> = p.toks.iter().map(|t| t.spell.clone()).collect();
-    let (text0, _) = render_tokens(&spells);
+    let (text0, _, _) = render_tokens(&spells, &doc0);
     let base = match guard(AssertUnwindSafe(|| project(&parser::parse(&lexer::lex(&text0))))) {
         Ok(b) => b,
         Err(m) => {
             o.failures.push(Failure::new("panic", "", json!({"text": text0, "panic": m})));
-            return o;
+            return;
         }
     };
     let base_decls = decls(&base);
     if base_decls.len() != tops.len() {
         o.failures.push(Failure::new("base-tree", "", json!({"text": text0, "why": "undamaged program not parsed into its declarations (C04)"})));
-        return o;
+        return;
     }
     let names: Vec<(String, String)> = tops.iter().map(|n| (n.kind.clone(), n.attr.clone())).collect();
     let unique_names = {
@@ -128,7 +147,8 @@ pub fn damage_case(case: &Value, stride: usize) -> Outcome {
                         1
                     }
                 };
-                let (text, starts) = render_tokens(&sp);
+                let docd: Vec<usize> = doc0.iter().enumerate().map(|(k, f)| if k > d { (*f as isize + delta) as usize } else { *f }).collect();
+                let (text, starts, owned) = render_tokens(&sp, &docd);
                 o.evals += 1;
                 let desc = || json!({"text": text, "original": text0, "damage": kind, "at_token": i, "token": tok, "declaration": d});
                 let res = guard(AssertUnwindSafe(|| {
@@ -140,7 +160,7 @@ pub fn damage_case(case: &Value, stride: usize) -> Outcome {
                 let (got, src) = match res {
                     Ok(x) => x,
                     Err(m) => {
-                        o.failures.push(Failure::new("panic", kind, json!({"case": desc(), "panic": m})));
+                        o.failures.push(Failure::new("panic", &site_of(kind), json!({"case": desc(), "panic": m})));
                         continue;
                     }
                 };
@@ -161,16 +181,16 @@ pub fn damage_case(case: &Value, stride: usize) -> Outcome {
                 if !ok {
                     o.failures.push(Failure::new(
                         "undamaged-declaration-changed",
-                        kind,
+                        &site_of(kind),
                         json!({"case": desc(), "got": pnodes_json(&got), "before": pnodes_json(&base)}),
                     ));
                     continue;
                 }
                 // syntax diagnostics inside the damaged region (byte ranges)
                 let region_first_tok = top.first; // same index in the damaged token list (damage is at i >= first)
-                let region_start = starts.get(region_first_tok).cloned().unwrap_or(text.len());
+                let region_start = owned.get(region_first_tok).cloned().unwrap_or(text.len());
                 let next_first = (top.last as isize + 1 + delta) as usize;
-                let region_end = if d + 1 < tops.len() { starts.get(next_first).cloned().unwrap_or(text.len()) } else { text.len() };
+                let region_end = if d + 1 < tops.len() { owned.get(next_first).cloned().unwrap_or(text.len()) } else { text.len() };
                 let mut nsyn = 0;
                 for e in src.errors() {
                     if matches!(e.1, ErrorMessage::ParseErrorMessage(_) | ErrorMessage::LexErrorMessage(_)) {
@@ -178,7 +198,7 @@ pub fn damage_case(case: &Value, stride: usize) -> Outcome {
                         if e.0.start < region_start || e.0.end > region_end {
                             o.failures.push(Failure::new(
                                 "diagnostic-outside-damaged-declaration",
-                                kind,
+                                &site_of(kind),
                                 json!({"case": desc(), "diagnostic": format!("{:?} {}", e.0, e.1), "region": [region_start, region_end]}),
                             ));
                             break;
@@ -206,7 +226,7 @@ pub fn damage_case(case: &Value, stride: usize) -> Outcome {
                         if !kind_ok {
                             o.failures.push(Failure::new(
                                 "table-entry-lost",
-                                kind,
+                                &site_of(kind),
                                 json!({"case": desc(), "declaration_name": nm, "entry": format!("{:?}", entry.map(|_| "other kind"))}),
                             ));
                             break;
@@ -217,5 +237,4 @@ pub fn damage_case(case: &Value, stride: usize) -> Outcome {
             }
         }
     }
-    o
 }
